@@ -2,6 +2,7 @@
 //! `--cfg oal_verif`) on the cases read from stdin, one canonical result line per case.
 mod l_pos;
 mod l_unify;
+mod l_load;
 
 fn main() {
     let args: Vec<String> = std::env::args().collect();
@@ -9,6 +10,7 @@ fn main() {
     match layer {
         "pos" => l_pos::run(),
         "unify" => l_unify::run(),
+        "load" => l_load::run(),
         _ => {
             eprintln!("usage: oalimpl <layer>");
             std::process::exit(2);
